@@ -3,6 +3,7 @@
 use tower_lsp::lsp_types::{Diagnostic, DiagnosticSeverity, Position, Range};
 use tracing::warn;
 
+use crate::lsp::code_action::version_text_range;
 use crate::parser::traits::Parser;
 use crate::parser::types::PackageInfo;
 use crate::version::checker::{
@@ -29,8 +30,11 @@ pub fn generate_diagnostics<S: VersionStorer>(
         .filter_map(|package| {
             let result = compare_version(storer, matcher, &package.name, &package.version).ok()?;
             let mut diagnostic = create_diagnostic(package, &result)?;
-            // LSP counts characters in UTF-16 code units, the parsers count bytes
-            if let Some((column, width)) = package.utf16_span(content) {
+            // The range covers the version text (the value token of an npm alias, a JSR
+            // specifier or a quoted `uses:` is wider). LSP counts characters in UTF-16 code
+            // units, the parsers count bytes
+            let located = version_text_range(package, content);
+            if let Some((column, width)) = located.as_ref().unwrap_or(package).utf16_span(content) {
                 diagnostic.range.start.character = column;
                 diagnostic.range.end.character = column + width;
             }
